@@ -157,3 +157,12 @@ impl DiagnosticMessage for Error {
         }
     }
 }
+
+#[cfg(vrl_verif)]
+impl Predicate {
+    /// verification hook: the predicate's expressions.
+    #[must_use]
+    pub fn verif_inner(&self) -> &Block {
+        &self.inner
+    }
+}
